@@ -339,7 +339,36 @@ theorem makegrid_tail (e n : List Rat) (extras : List Arr2) (data : Option (List
         | ok v1 =>
           simp only [Option.getD_some, zip_snd v1 ds (checkNames_length _ _ _ hc)]
 
-/-- **Bridge.**  `make_xarray_grid` as regenerated from the source (with the regenerated `meshgrid_to_1d` and `check_extra_coords_names`) is the
+theorem allcloseRows_self (E : Arr2) :
+    Gen.allcloseRows E E false = E.all fun row => row.length == (E.headD []).length && (List.zipWith allclose1 (E.headD []) row).all id := by
+  simp [Gen.allcloseRows]
+
+theorem zipWith_self_all {α : Type} (l : List α) (p : α → α → Bool) : (List.zipWith p l l).all id = l.all fun x => p x x := by
+  induction l with
+  | nil => rfl
+  | cons x xs ih => simp only [List.zipWith_cons_cons, List.all_cons, ih]; rfl
+
+theorem allcloseCols_self (N : Arr2) :
+    Gen.allcloseCols N N false = N.all fun row => row.all fun v => allclose1 (row.headD 0) v := by
+  simp only [Gen.allcloseCols, beq_self_eq_true, Bool.true_and, Bool.false_eq_true, if_false]
+  exact zipWith_self_all N _
+
+theorem two_checks (a b : Bool) :
+    (do
+      if !a then throw Err.valueError
+      if !b then throw Err.valueError
+      pure () : Except Err Unit) = if (a && b) = true then .ok () else .error .valueError := by
+  cases a <;> cases b <;> rfl
+
+/-- **Bridge.**  `check_meshgrid` as regenerated from the source — `np.allclose(easting[0, :], easting)` and
+    `np.allclose(northing[:, 0][:, None], northing)`, which arrays and which slices read from the syntax tree — is the model's check: every row of
+    the easting equals (allclose) the first row, every northing row is constant (allclose to its first entry). -/
+theorem gen_check_meshgrid_eq_model (cs : List CoordArr) : Gen.checkMeshgrid cs = checkMeshgridE cs := by
+  unfold Gen.checkMeshgrid checkMeshgridE checkMeshgrid
+  simp only [allcloseRows_self, allcloseCols_self]
+  exact two_checks _ _
+
+/-- **Bridge.**  `make_xarray_grid` as regenerated from the source (with the regenerated `meshgrid_to_1d`, `check_meshgrid` and `check_extra_coords_names`) is the
     model's `makeGrid`, for 1-D and 2-D horizontal coordinates, any extras, data, names and distinct dimension names. -/
 theorem gen_make_xarray_grid_eq_model (east north : CoordArr) (extras : List Arr2) (data : Option (List Arr2)) (names : Option (List String))
     (dims : String × String) (exn : Option (List String)) (hd : dims.1 ≠ dims.2) :
@@ -356,7 +385,7 @@ theorem gen_make_xarray_grid_eq_model (east north : CoordArr) (extras : List Arr
     | d1 n => rfl
     | d2 N =>
       simp only [List.take_succ_cons, List.take_zero, ndimHorizontal, bind, Except.bind, pure, Except.pure, if_true, Gen.meshgridTo1d,
-        meshgridTo1d, checkCoordinates2, checkMeshgridE, List.all_cons, List.all_map, Function.comp_def, CoordArr.toArr2,
+        gen_check_meshgrid_eq_model, meshgridTo1d, checkCoordinates2, checkMeshgridE, List.all_cons, List.all_map, Function.comp_def, CoordArr.toArr2,
         List.getD_cons_zero, List.getD_cons_succ, firstRow, firstCol, List.drop_succ_cons, List.drop_zero]
       by_cases hr : (isRect E E.length (ncols E) && isRect N E.length (ncols E) && extras.all fun x => isRect x E.length (ncols E)) = true
       · have hr' : (isRect E E.length (ncols E) && (isRect N E.length (ncols E) && extras.all fun x => isRect x E.length (ncols E))) = true := by
